@@ -27,6 +27,8 @@ CLAIMED = {
             "4.C11"),
     "C07": ("contract proof: two loop invariants + pointwise post of SignatureAdapter.bind_expected against a spec function from the property; Event.__call__ reserved-name filter; extended_kwargs overlay; cache-key lemma (recorded finding)",
             "4.C07"),
+    "C08": ("contract proof for the closure layer (custom_and/or/not, comparators, constants vs Python semantics incl. short-circuit order), guard conjunction and CallbacksRegistry.check; BOUNDED stand-in (exhaustive <=4 tokens) for the regex/tokenizer text->AST layer",
+            "4.C08"),
     "C09": ("contract proof: BFS invariant of visit_connected_states (sound + closed under targets, LFP schema), iff-posts of the five metaclass checks and of _check",
             "4.C09"),
     "C13": ("contract proof: post of send (the callee is a bound event of that name for EVERY string) over a symbolic attribute table; Event.__call__ queues exactly one item",
